@@ -624,6 +624,20 @@ def w_colon_names(args):
                     check_tree(acc, ("formula", None, (t,), False), opts)
                     check_tree(acc, ("formula", (q,), (t,), False), opts)
                     check_tree(acc, ("formula", None, (_b(":", ("par", t), c),), False), opts)
+    # quoted names whose content looks like a literal or an operator: a quoted name is ALWAYS a variable
+    # (`1` and `.` are left out: their confusion with the intercept / the wildcard is the known C15 finding)
+    y = E.name("y")
+    for text in ("`0`", "`00`", "`-1`", "`+0`", "`+`", "`-`", "`~`", "`|`", "`:`", "`*`", "`**`", "`2.5`", "`a+b`", "`(a)`", "`%in%`"):
+        q = ("atom", "qname", text)
+        trees = [q, ("un", "+", q), ("un", "-", q), ("par", q)]
+        for op in ("+", "-", ":", "*", "/", "%in%"):
+            trees += [_b(op, a, q), _b(op, q, a)]
+        trees += [_b("+", _b("+", a, q), b), _b("-", _b("+", q, a), q), ("bin", "**", "**", ("par", _b("+", a, q)), ("atom", "lit", "2"))]
+        for t in trees:
+            check_tree(acc, ("formula", None, (t,), False), opts)
+            check_tree(acc, ("formula", (y,), (t,), False), opts)
+            check_tree(acc, ("formula", (q,), (_b("+", t, b),), False), opts)
+            check_tree(acc, ("formula", (y,), (a, t), False), opts)
     return ("colon-names", acc.result())
 
 
@@ -1063,7 +1077,7 @@ DRIVERS = {
         exhaustive=True,
     ),
     "decorated-pairs": dict(rule="every ordered pair of decorations (as in decorated-trees) on base trees with <= 1 binary node, exponents 1..3, distinct strings only", exhaustive=True),
-    "colon-names": dict(rule="quoted names whose text contains ':' (`a:b`, `b:a`, `a:b:c`, `a:`, `:`) combined by every binary operator (both orders, also as lhs and nested in an interaction) with the interactions a:b, b:a, a:b:c, a*b, a/b: atomic factors, never identified with the interaction of their pieces", exhaustive=True),
+    "colon-names": dict(rule="quoted names whose text contains ':' (`a:b`, `b:a`, `a:b:c`, `a:`, `:`) combined by every binary operator (both orders, also as lhs and nested in an interaction) with the interactions a:b, b:a, a:b:c, a*b, a/b: atomic factors, never identified with the interaction of their pieces; quoted names that look like literals or operators (`0`, `-1`, `+`, `~`, `|`, `2.5`, ...) in every operand position: always a variable", exhaustive=True),
     "powers": dict(rule="** and ^ with exponents 1..3 over 7 operand shapes, chains of two powers, excluded exponents (0, 2.5, a name)", exhaustive=True),
     "random-trees": dict(rule="seeded random trees with 4..8 binary nodes, unary runs, parentheses, special atoms", exhaustive=False),
     "sign-run-negative-space": dict(
